@@ -3,7 +3,7 @@ their input; queries total; regressing timestamps rejected; closed tallies
 ignore observations until re-initialised."""
 import math
 
-from vf import common, shrink as shr
+from vf import common, shrink as shr, twothread
 from vf.models import refstats
 
 common.use_repo()
@@ -13,6 +13,7 @@ from pydsol.core.units import Duration                            # noqa: E402
 from pydsol.core.statistics import (WeightedTally, TimestampWeightedTally,   # noqa: E402
                                     EventBasedWeightedTally,
                                     EventBasedTimestampWeightedTally)
+import pydsol.core.statistics as _statmod                         # noqa: E402
 
 PROPERTY = "C10"
 LEVEL = "exploration"
@@ -30,12 +31,15 @@ RULE = ("one case = a history over a WeightedTally / TimestampWeightedTally or t
         "the end time; NaN exactly where undefined (no observations, zero total "
         "weight, fewer than two positively weighted observations for the sample "
         "forms); rejected calls change nothing; nothing reported changes after "
-        "closing until initialize. non-trivial = at least 3 accepted observations "
+        "closing until initialize. 15 % of the cases are two-thread cases (a writer "
+        "thread registers / closes, the driver thread queries, seeded pre-emption at the "
+        "lines of statistics.py; state after both finished == definition). non-trivial = at least 3 accepted observations "
         "of which one has zero weight / a repeated timestamp, or the tally was "
         "closed; distinct = digest of the history")
 COMPONENTS = {"real": ["pydsol.core.statistics (WeightedTally, TimestampWeightedTally, EventBased variants)",
-                       "pydsol.core.pubsub"], "stub": []}
-ASSUMPTIONS = ["weak fit: history + exact reference model, no scheduler or clock",
+                       "pydsol.core.pubsub"],
+              "stub": ["threading.Thread.start / thread scheduling (baton scheduler, two-thread layer only)"]}
+ASSUMPTIONS = ["weak fit for the single-caller layer (history + exact reference model, no scheduler or clock); the two-thread layer runs a registering and a querying caller thread under the baton scheduler and judges only the state after both have finished (values read during the overlap and concurrent registration from two threads are not judged: the property does not promise them)",
                "weighted_mean() with zero total weight must merely not raise",
                "n/min/max of the timestamp variant and last_value() after close are not judged (docstring and code disagree; the property is silent)"]
 
@@ -53,12 +57,98 @@ EVENT_GETTER = {
     "WEIGHTED_SAMPLE_VARIANCE_EVENT": ("weighted_variance", False)}
 
 
+def init_worker():
+    twothread.install(_statmod)
+
+
 def gname(g):
     return g[0] + ("" if len(g) == 1 else "(unbiased)")
 
 
+def gen_threaded(rng, seed):
+    """Two caller threads share one tally: one registers (and closes), the other
+    queries while that goes on, with seeded pre-emption inside statistics.py.
+    Only the state after both have finished is judged."""
+    kind = rng.choice(["weighted", "timestamp"])
+    n = rng.choice([1, 2, 3, 4, 6, 10])
+    ops = []
+    t = rng.choice([0.0, 1.0, 10.0])
+    for _ in range(n):
+        v = rng.choice([rng.randint(-4, 9), rng.randint(-40, 40) / 8.0, 2.5])
+        if kind == "weighted":
+            ops.append(["reg", rng.choice([0.0, 0.5, 1.0, 2.0, 3.5]), v])
+        else:
+            t = t + rng.choice([0, 0.5, 1, 2, 0.25])
+            ops.append(["reg", t, v])
+    if kind == "timestamp" and rng.random() < 0.7:
+        ops.append(["end", t + rng.choice([0, 0.5, 2])])
+    return {"kind": kind, "variant": rng.choice(["plain", "event"]), "threaded": True,
+            "ops": ops, "queries": rng.choice([1, 2, 3, 6]),
+            "sched": {"seed": seed, "p": rng.choice([0.02, 0.1, 0.3]),
+                      "d": rng.choice([2, 4, 8, 20])}}
+
+
+def run_threaded(case):
+    info = {"accepted": 0, "rejected": 0, "special": 0, "closed": 0, "published": 0}
+    kind = case["kind"]
+    if kind == "weighted":
+        st = WeightedTally("w") if case["variant"] == "plain" else EventBasedWeightedTally("w")
+    else:
+        st = TimestampWeightedTally("p") if case["variant"] == "plain" \
+            else EventBasedTimestampWeightedTally("p")
+
+    def writer():
+        for op in case["ops"]:
+            if op[0] == "reg":
+                st.register(op[1], op[2])
+            else:
+                st.end_observations(op[1])
+
+    def reader():
+        for _ in range(case["queries"]):
+            read(st)
+
+    det, errors = twothread.run_two(case["sched"], writer, reader)
+    info["switches"] = det.n_switch
+    if det.aborted:
+        return ("harness", "two-thread run aborted: %s" % det.aborted), info
+    for who, name, msg in errors:
+        if who == "writer":
+            return ("register-raised", "with a second thread querying the tally, the "
+                    "registering thread raised %s: %s" % (name, msg)), info
+    obs, closed_at = [], None
+    for op in case["ops"]:
+        if op[0] == "end":
+            closed_at = op[1]
+            info["closed"] += 1
+        elif kind == "timestamp" and obs and obs[-1][0] == op[1]:
+            obs[-1] = (op[1], op[2])
+        else:
+            obs.append((op[1], op[2]))
+        info["accepted"] += 1
+    if kind == "weighted":
+        ex = refstats.weighted_exact(obs)
+        names = [gname(g) for g in W_GETTERS]
+    else:
+        ex = refstats.signal_exact(obs, closed_at)
+        names = T_JUDGED
+    got = read(st)
+    for name in names:
+        if isinstance(got[name], str):
+            return ("getter", "after both threads have finished %s() %s" % (name, got[name])), info
+        exact, tol = ex[name]
+        msg = refstats.compare(name, got[name], exact, tol)
+        if msg:
+            return ("getter", "one thread registered %s while another queried the tally "
+                    "(%d thread switches inside statistics.py); after both have finished: %s"
+                    % (case["ops"][:5], det.n_switch, msg)), info
+    return None, info
+
+
 def generate(seed, tier, idx=0):
     rng = common.rng_for(seed, "case")
+    if rng.random() < 0.15:
+        return gen_threaded(rng, seed)
     kind = rng.choice(["weighted", "timestamp"])
     variant = rng.choice(["plain", "event", "event+sub", "event+sub"])
     sizes = [0, 1, 2, 3, 5, 8, 12, 20, 40]
@@ -93,7 +183,8 @@ def generate(seed, tier, idx=0):
             r = rng.random()
             if r < 0.07:
                 ops.append(["bad", rng.choice(["nan_value", "nan_weight", "neg_weight",
-                                               "str_value", "none_weight"])])
+                                               "str_value", "none_weight", "huge_value",
+                                               "huge_weight"])])
             elif r < 0.10:
                 ops.append(["init"])
             elif r < 0.18:
@@ -113,7 +204,8 @@ def generate(seed, tier, idx=0):
             r = rng.random()
             if r < 0.07:
                 ops.append(["bad", rng.choice(["regress", "nan_time", "nan_value",
-                                               "str_value", "none_time"])])
+                                               "str_value", "none_time", "huge_value",
+                                               "huge_time"])])
             elif r < 0.10:
                 ops.append(["init"])
                 closed = False
@@ -267,20 +359,23 @@ def run(case):
                     "str_value": (1.0 if kind == "weighted" else t_ok, "x"),
                     "none_weight": (None, 1.0), "none_time": (None, 1.0),
                     "nan_time": (NANF, 1.0),
+                    # plain ints beyond the float range
+                    "huge_value": (1.0 if kind == "weighted" else t_ok, 10 ** 400),
+                    "huge_weight": (10 ** 400, 1.0), "huge_time": (10 ** 400, 1.0),
                     "regress": ((last_t - 0.5) if last_t is not None else None, 1.0)}[b]
             if b == "regress" and (last_t is None):
                 continue
             before = text(read(st))
             try:
                 st.register(*args)
-                return ("invalid-accepted", "op #%d register%r was accepted" % (i, args)), info
-            except (TypeError, ValueError):
+                return ("invalid-accepted", "op #%d register%.60r was accepted" % (i, args)), info
+            except (TypeError, ValueError, OverflowError):
                 pass
             info["rejected"] += 1
             after = text(read(st))
             if before != after:
                 diff = {k: (before[k], after[k]) for k in before if before[k] != after[k]}
-                return ("rejected-input-changed-state", "op #%d rejected register%r "
+                return ("rejected-input-changed-state", "op #%d rejected register%.60r "
                         "changed %s" % (i, args, diff)), info
         elif name == "init":
             st.initialize()
@@ -336,18 +431,20 @@ def run(case):
 
 
 def execute(case):
-    f, info = run(case)
-    res = {"clean": True, "digest": common.digest([case, f and f[0]]),
+    f, info = run_threaded(case) if case.get("threaded") else run(case)
+    res = {"clean": f is None or f[0] != "harness", "digest": common.digest([case, f and f[0]]),
            "counters": {"kind:" + case["kind"]: 1, "variant:" + case["variant"]: 1,
                         "fault:rejected_input": info["rejected"],
                         "accepted_observations": info["accepted"],
                         "zero_weight_or_repeated_timestamp": info["special"],
                         "closed": info["closed"],
-                        "published_values_checked": info["published"]},
+                        "published_values_checked": info["published"],
+                        "layer:two_threads": 1 if case.get("threaded") else 0,
+                        "fault:preempt": info.get("switches", 0)},
            "nontrivial": info["accepted"] >= 3 and (info["special"] + info["closed"]) >= 1,
            "case_digest": common.digest8(case)}
     if f:
-        res["status"] = "violation"
+        res["status"] = "harness" if f[0] == "harness" else "violation"
         res["check_id"], res["message"] = f
     else:
         res["status"] = "ok"
